@@ -20,6 +20,12 @@ def blocks_all(rng, tier):
                     # rejected registrations: forbidden and OS-rejected numbers
                     for bad in (9, 11, 100, -1):
                         blocks.append(["mk %s %d %d" % (k, nb, full), "reg %s %d" % (how, bad), "final"])
+    # close() interrupted by a signal: on Linux the descriptor is released all the same, so "exactly once" means
+    # that nobody closes it again - when the action is removed, and when a registration is rejected
+    for k in KINDS:
+        for how in ("own", "raw"):
+            blocks.append(["mk %s 0 0" % k, "reg %s 10" % how, "raise 2", "eintr-close", "unreg", "raise 1", "final"])
+            blocks.append(["mk %s 0 0" % k, "eintr-close", "reg %s 100" % how, "final"])
     # a descriptor that is no socket and refuses F_SETFL (O_PATH): the registration is rejected by the
     # error of `set_flags` and the descriptor handed over must still be closed exactly once
     for how in ("raw", "own"):
